@@ -66,7 +66,7 @@ class Damp:
             st += [["reset", c]]
         st += [["sleep", 80]]
         # probes during the first part of the hold-down window
-        for k in range(3):
+        for k in range(getattr(self, "probes", 3)):
             st += [["dial", "p%d" % k], ["recv", "p%d" % k, 1, 250], ["fullclose", "p%d" % k], ["sleep", 300]]
         return {"id": self.sid, "local_as": 65001, "remote_as": 65000, "local_id": 0x0A000001, "hold": 90,
                 "passive": self.direction == "in", "idle_hold_ms": 100, "connect_retry_ms": 400, "caps": [], "on_open": None,
@@ -126,6 +126,18 @@ def damp_items(rng, tier):
                 hows = damping[k::3] + [h for h in hows if not h[1]]
             for how, damp in hows:
                 out.append(Damp(sid, direction, state, how, damp))
+                sid += 1
+    # every defined (code, subcode) point received in every state, in both tiers (one probe each): a NOTIFICATION received is a
+    # protocol error whatever it says, unless its code is Cease
+    defined = ([(1, x) for x in (1, 2, 3)] + [(2, x) for x in range(1, 8)] + [(3, x) for x in range(1, 12)] + [(4, 0)]
+               + [(5, x) for x in range(0, 4)] + [(7, 1), (7, 2)])
+    for direction in ("in", "out"):
+        for state in ("openSent", "openConfirm", "established"):
+            for code, sub in defined:
+                d = Damp(sid, direction, state, ("recv-notif", S.frame(S.NOTIF, S.notif_body(code, sub))), True)
+                d.tag = "damp-grid.%s.recv-notif-%d-%d.%s" % (state, code, sub, direction)
+                d.probes = 1
+                out.append(d)
                 sid += 1
     return out
 
